@@ -11,7 +11,7 @@ use std::sync::{Arc, Mutex};
 // the last four contain a lone % or $ (followed by a harmless character): plain text, not a reference
 const LIT: [&str; 18] = ["a", "b", " ", "{", "}", ":", "-", "#", "=", "x y", "1", ".", "{}", "é", "50% off", "% x", "5$ y", "a%b"];
 const NAMES: [&str; 5] = ["x", "y", "long_name", "a.b", "n1"];
-const VALS: [&str; 17] = ["", "v", "two words", "${x}", "%{y}", "\\${x}", "a}b", "$", "%", " lead", "q\"uote", "back\\slash", "end\n", "a b\t", "w\r\n", "trail ", "\u{a0}nb"];
+const VALS: [&str; 20] = ["", "v", "two words", "${x}", "%{y}", "\\${x}", "a}b", "$", "%", " lead", "q\"uote", "back\\slash", "end\n", "a b\t", "w\r\n", "trail ", "\u{a0}nb", "\\\\srv\\share x", "a \\d+", "\\"];
 
 pub fn gen(r: &mut Rng) -> Value {
     let mut env = serde_json::Map::new();
@@ -83,7 +83,7 @@ fn run_inner(input: &Value) -> Option<Value> {
                 let n = p[0]["spr"].as_str()?;
                 written.push(format!("%{{{}}}", n));
                 let v = env.get(n).cloned().unwrap_or_default();
-                if v.contains('"') || v.contains('#') || v.contains('\\') {
+                if v.contains('"') || v.contains('#') {
                     return None;
                 }
                 expected.extend(v.split(' ').filter(|w| !w.is_empty()).map(|w| w.to_string()));
@@ -93,8 +93,8 @@ fn run_inner(input: &Value) -> Option<Value> {
         if let Some(n) = a["spread"].as_str() {
             written.push(format!("%{{{}}}", n));
             let v = env.get(n).cloned().unwrap_or_default();
-            // the statement fixes spreading only for words without quotes / comments / backslashes
-            if v.contains('"') || v.contains('#') || v.contains('\\') {
+            // the statement fixes spreading only for words without quotes / comments (backslashes are ordinary characters there)
+            if v.contains('"') || v.contains('#') {
                 return None;
             }
             expected.extend(v.split(' ').filter(|w| !w.is_empty()).map(|w| w.to_string()));
